@@ -68,3 +68,13 @@ package test
 //@   ensures[C20] failed: (results[len(results)-1].Outcome == 0) <==> (!(val is rel.TrueSet) && litFalse(val))
 //@   ensures[C20] invalid: (results[len(results)-1].Outcome == 1) <==> (!(val is rel.TrueSet) && !litFalse(val))
 //@   ensures[C20] valid: validOutcome(results[len(results)-1].Outcome)
+
+// The walk callback of getTestFiles. Returning a non-nil error for a FILE makes afero.Walk abandon the rest of the
+// directory (filepath.SkipDir) or the whole walk: test files after it would silently never run, and the run would pass
+// although a leaf is false. So: a file that is not a test file is skipped with nil; only directories may be skipped
+// with an error value of the callback's own choosing.
+//@ func getTestFiles$1(path, info, walkErr)
+//@   tags C20, C10
+//@   requires walkErr == nil ==> info != nil
+//@   ensures[C20] walkerr: walkErr != nil ==> result == walkErr
+//@   ensures[C20] otherfiles: walkErr == nil && !isdirV(info) && !swin(path, len(path) - len("_test.arrai"), "_test.arrai") ==> result == nil
